@@ -151,9 +151,6 @@ def main(argv):
     return 0
 
 
-if __name__ == '__main__':
-    sys.exit(main(sys.argv[1:]))
-
 
 def main_pairs(argv):
     runs = int(argv[argv.index('--runs') + 1]) if '--runs' in argv else 1200
@@ -187,3 +184,7 @@ def main_pairs(argv):
                 shutil.rmtree(tmp, ignore_errors=True)
     print(counts)
     return 0
+
+
+if __name__ == '__main__':
+    sys.exit(main(sys.argv[1:]))
